@@ -891,7 +891,10 @@ func (self Value) MarshalTo(to *proto.TypeDescriptor, opts *Options) ([]byte, er
 func marshalTo(read *binary.BinaryProtocol, write *binary.BinaryProtocol, from *proto.TypeDescriptor, to *proto.TypeDescriptor, opts *Options, massageLen int) error {
 	tail := read.Read + massageLen
 	for read.Read < tail {
-		fieldNumber, wireType, _, _ := read.ConsumeTag()
+		fieldNumber, wireType, _, tagErr := read.ConsumeTag()
+		if tagErr != nil {
+			return wrapError(meta.ErrRead, "", tagErr)
+		}
 		fromField := from.Message().ByNumber(fieldNumber)
 
 		if fromField == nil {
@@ -939,7 +942,9 @@ func marshalTo(read *binary.BinaryProtocol, write *binary.BinaryProtocol, from *
 				return wrapError(meta.ErrRead, "", err)
 			}
 			write.Buf, pos = binary.AppendSpeculativeLength(write.Buf)
-			marshalTo(read, write, fromDesc, toDesc, opts, subMessageLen)
+			if err := marshalTo(read, write, fromDesc, toDesc, opts, subMessageLen); err != nil {
+				return err
+			}
 			write.Buf = binary.FinishSpeculativeLength(write.Buf, pos)
 		} else {
 			start := read.Read
